@@ -324,3 +324,7 @@ C09 = codec_check("C09", "C09", "model_checking", gens=("v2",),
     rule="exhaustive at the seam where order enters: every permutation of keyWriter call order (n<=5, thorough 6) for WriteMap on all five writers x 4 key sets (prefix pairs, case, non-ASCII, empty, reserved characters) x {flat, nested} x {no exclusion, one key excluded}; every permutation of parameter order through BuildQueryParams; every insertion order of keys into string / int64 / bytes / hash-colliding key sets; outputs must be byte-identical across orders with keys, parameters and ids ascending; Equal values (copies, map-insertion-order rebuilds) must encode identically in all 5 formats, also after a warm-up of unrelated encodes; supplementary (not exhaustive): 64 re-encodings from freshly built Go maps and an encoding digest compared across the shard processes; states = key sets / values, transitions = encode calls",
     assumptions=["Go map iteration order cannot be owned: the layers that range over a Go map are covered by repetition only (labelled supplementary); a removed sort is caught deterministically by the seam check",
                  "v2 only, as the property states"])
+
+
+C11 = codec_check("C11", "C11", "model_checking", universes=("constraints", "constraints"),
+    rule="exhaustive enumeration of constraint-violating and constraint-satisfying values and documents on generated bindings: unions (5 unions, every subset of members set, documents with 0/1/2 members, unknown member) both directions in JSON and ROR2; fixed (sizes 1, 2, 16 x payload lengths 0..size+2); enums (constants -1..n+1; symbol strings declared / unknown / wrong case / padded / numeric); partial updates (4 records x every assignment of a subset of {delete, set, nested patch} to each field with a family of nested patches x 3 exclusion specs): encode errors iff the constraint is violated, decoding the equivalent reference document errors iff violated, legal patches emit the protocol's patch/$set/$delete document and round-trip; states = values / patches, transitions = encode or decode calls")
